@@ -689,7 +689,6 @@ func (m *MutAnalysis) returnsFresh(fn *ssa.Function) bool {
 	return true
 }
 
-
 // resultSources computes, for a module function, the set of parameter
 // indices (receiver = 0) whose storage the results may be (slices of, or
 // appends to).  known is false when a result comes from anything else than
